@@ -596,6 +596,10 @@ class _NumericOperationsImpl(OperationsBlock):
             else:
                 raise ValueError("axis must be specified for multi-dimensional arrays")
 
+        if isinstance(dtype, dtypes.CoreType) and dtype != dtypes.uint64:
+            # the elements are cast to the requested dtype before they are summed
+            x = x.astype(dtype)
+
         if isinstance(x.dtype, (dtypes.Unsigned, dtypes.NullableUnsigned)):
             if ndx.iinfo(x.dtype).bits < 64:
                 out = x.astype(dtypes.int64)
